@@ -25,6 +25,7 @@ structure MAg where
 structure Mon where
   dls : List MDl := []
   agents : List MAg := []
+  ows : List MDl := []             -- send-only clients (`AttachClient::OneWay`)
   running : Bool := true
   counter : Nat := 0
   deriving Repr
@@ -66,7 +67,7 @@ def Ev.parse (w : String) : Option Ev :=
       | some (.dl id) =>
         if payload == "end" then some (.dlEnd id)
         else (parseMsgFields payload).map fun (k, n, l, b) => .toDl id k n l b
-      | none => none
+      | _ => none
   | _ => none
 
 def parseEvs : List String → Option (List Ev)
@@ -102,6 +103,7 @@ def firstSome {α : Type} (f : α → Option String) : List α → Option String
 def Mon.srcOpen (m : Mon) : Src → Bool
   | .dl id => m.dls.any fun d => d.id == id && !d.detached
   | .agent i => match m.agents[i]? with | some a => !a.detached | none => false
+  | .ow id => m.ows.any fun d => d.id == id && !d.detached
 
 /-- what a frame written for `msg` must decode to -/
 def frameCarries (frame : Str) (msg : Msg) : Bool :=
@@ -144,7 +146,18 @@ def Mon.checkInput (m : Mon) (frame : Str) (evs : List Ev) : Option String :=
             else none
           | none => some "request-to-unknown-agent"
         | _ =>
-          if evs.any (fun e => match e with | .find n' _ none => n' == n | _ => false) then none
+          if evs.any (fun e => match e with | .find n' _ none => n' == n | _ => false) then
+            -- nobody answers for the node: the peer is told so (`@unlinked(node:..,lane:..)@nodeNotFound`), except for
+            -- a command, which is dropped silently
+            let frames := evs.filterMap fun e => match e with | .peer f => some f | _ => none
+            if k = .command then (if frames.isEmpty then none else some "unexpected-frame")
+            else
+              match frames with
+              | [f] =>
+                if peel f == .env .unlinked n l Generated.Env.nodeNotFoundTag then none
+                else some "not-found-answer-changed"
+              | [] => some "not-found-answer-missing"
+              | _ => some "not-found-answer-duplicated"
           else some "request-dropped"
     else
       let expected := sortNat ((m.dls.filter fun d => !d.detached && d.node == n && d.lane == l).map (·.id))
@@ -173,6 +186,7 @@ def Mon.burstMsg (m : Mon) (s : Src) (k : Nat) : Option Msg :=
   match s with
   | .dl id => (m.dls.find? fun d => d.id == id).map fun d => ⟨.command, d.node, d.lane, tagOf k⟩
   | .agent i => (m.agents[i]?).map fun a => ⟨.event, a.node, ['l'], tagOf k⟩
+  | .ow id => (m.ows.find? fun d => d.id == id).map fun d => ⟨.command, d.node, d.lane, tagOf k⟩
 
 def dedupSrc : List Src → List Src
   | [] => []
@@ -186,7 +200,8 @@ def Mon.checkBurst (m : Mon) (srcs : List Src) (evs : List Ev) : Option String :
   firstSome (fun s =>
     let got := (frames.filter fun p => p.1 = s).map (·.2)
     let want := if m.running && m.srcOpen s then burstTags srcs s m.counter else []
-    if got.length < want.length then some "burst-frame-lost"
+    if got.length < want.length then
+      some (match s with | .ow _ => "one-way-command-not-sent" | _ => "burst-frame-lost")
     else if got.length > want.length then some "burst-frame-duplicated"
     else if (got.zip want).all (fun p => match m.burstMsg s p.2 with
         | some msg => frameCarries p.1 msg
@@ -200,6 +215,13 @@ def Mon.stepOp (m : Mon) (op : Op) (out : String) (evs : List Ev) : Mon × Optio
   | .attach id n l =>
     let m' := if out.startsWith "ok" then { m with dls := m.dls ++ [⟨id, n, l, false⟩] } else m
     ({ m' with running := m'.running && !stopped }, if evs.any isDeliveryEv then some "spurious-delivery" else none)
+  | .attachOne id n l =>
+    let m' := if out.startsWith "ok" then { m with ows := m.ows ++ [⟨id, n, l, false⟩] } else m
+    ({ m' with running := m'.running && !stopped }, if evs.any isDeliveryEv then some "spurious-delivery" else none)
+  | .detach (.ow id) =>
+    ({ m with ows := m.ows.map (fun d => if d.id = id then { d with detached := true } else d),
+              running := m.running && !stopped },
+     if evs.any isDeliveryEv then some "spurious-delivery" else none)
   | .detach (.dl id) =>
     ({ m with dls := m.dls.map (fun d => if d.id = id then { d with detached := true } else d),
               running := m.running && !stopped },
@@ -217,7 +239,7 @@ def Mon.stepOp (m : Mon) (op : Op) (out : String) (evs : List Ev) : Mon × Optio
      else if expectSend then
        (match frames with
         | [f] => if frameCarries f msg then none else some "sent-frame-changed"
-        | [] => some "sent-frame-missing"
+        | [] => some (match s with | .ow _ => "one-way-command-not-sent" | _ => "sent-frame-missing")
         | _ => some "sent-frame-duplicated")
      else if frames.isEmpty then none else some "unexpected-frame")
   | .burst srcs =>
